@@ -3,8 +3,8 @@
     declared count equals the number of bytes that follow exactly when that number fits the field -- the
     "whenever it fits" of the property is not only sufficient but necessary -- and an explicit nesting of
     one helper inside another. *)
-From RS Require Import Base.Bytes Base.Outcome Interp.Val Lib.LibBase Lib.MiscLib Lib.StdLib
-  Spec.LenPrefix Proofs.BytesLemmas Proofs.C15.LenLemmas Proofs.C15.StdHelpers.
+From RS Require Import Base.Bytes Base.Outcome Interp.Val Lib.LibBase Lib.MiscLib Lib.ProtoLib Lib.StdLib
+  Spec.LenPrefix Spec.TlsParse Proofs.BytesLemmas Proofs.C15.LenLemmas Proofs.C15.StdHelpers Proofs.C15.Tls.
 From Coq Require Import ZArith Lia ZifyBool ZifyNat ZifyN.
 Ltac Zify.zify_post_hook ::= Z.div_mod_to_equations.
 Open Scope N_scope.
@@ -107,4 +107,36 @@ Proof.
   - rewrite E32 in C. injection C as C. subst out. rewrite parse_be32_enc by lia. split.
     + intros P. injection P as P. lia.
     + intros L. rewrite N.mod_small by lia. reflexivity.
+Qed.
+
+(** the same for a 16-bit count wherever it stands: TLS records *)
+Lemma parse_len_be16_wrap_iff (b rest : bytes) :
+  parse_len_be16 (be16 (wrap16 (len b)) ++ b ++ rest) = Some (b, rest) <-> len b < 65536.
+Proof.
+  split.
+  - intros P. destruct (N.ltb_spec (len b) 65536) as [L|L]; [exact L|exfalso].
+    unfold parse_len_be16, parse_len_prefixed, wrap16 in P.
+    fold (parse_be16 (be16 (len b mod 65536) ++ b ++ rest)) in P.
+    rewrite parse_be16_enc in P by lia. revert P. apply take_exact_short. lia.
+  - apply parse_len_be16_enc.
+Qed.
+
+Theorem tls_record_iff e version content v c parts rest h out :
+  conv_u16 version = Ok v -> conv_u8 content = Ok c ->
+  call e "tls::message" [version; content] (map VStr parts) h = Some (Ok (VStr out, h)) ->
+  (parse_tls_record (out ++ rest) = Some ((c, v, concat parts), rest) <-> len (concat parts) < 65536).
+Proof.
+  intros Hv Hc. pose proof (conv_u16_lt _ _ Hv). pose proof (conv_u8_lt _ _ Hc).
+  unfold call. change (exec e "tls::message" None [version; content] (map VStr parts) h)
+    with (Some (tls_message_fn [version; content] (map VStr parts) h)).
+  unfold tls_message_fn. rewrite Hv, Hc, join_extra_strs. cbn [obind]. intros E. injection E as E. subst out.
+  unfold parse_tls_record. rewrite <- ?app_assoc. cbn [app]. rewrite parse_u8_cons.
+  change ((v / 256) mod 256 :: v mod 256 :: (wrap16 (len (concat parts)) / 256) mod 256
+          :: wrap16 (len (concat parts)) mod 256 :: concat parts ++ rest)
+    with (be16 v ++ be16 (wrap16 (len (concat parts))) ++ concat parts ++ rest).
+  rewrite parse_be16_enc by assumption.
+  rewrite <- (parse_len_be16_wrap_iff (concat parts) rest).
+  destruct (parse_len_be16 (be16 (wrap16 (len (concat parts))) ++ concat parts ++ rest)) as [[f r]|].
+  - split; intros P; injection P as P1 P2; subst; reflexivity.
+  - split; discriminate.
 Qed.
